@@ -14,6 +14,12 @@ type MuxHistScenario struct {
 	Period int     `json:"period"`
 	Ops    []MuxOp `json:"ops"`
 	Enum   bool    `json:"enum,omitempty"` // member of the bounded-exhaustive family (informational)
+	// WFault: the history is run a second time with a writer that fails once, at Write call
+	// FailSeed modulo the number of Write calls of the fault-free run; the PMTs written by calls
+	// that succeeded are compared with each other (version rule across a lost emission)
+	WFault   bool   `json:"wfault,omitempty"`
+	FailSeed uint64 `json:"fail_seed,omitempty"`
+	Short    int    `json:"short,omitempty"`
 }
 
 type muxHist struct{}
@@ -71,6 +77,9 @@ func genLen(r *core.PRNG, hdr, af int, big bool) int {
 		return r.Range(200, 1200)
 	}
 	if big {
+		if r.Chance(1, 10) {
+			return r.Range(1030, 1400) * 184 // a large frame: more than a thousand packets
+		}
 		return 65535 - hdr + r.Range(-4, 40)
 	}
 	return r.Range(1, 600)
@@ -298,6 +307,9 @@ func GenMuxOps(r *core.PRNG, n int, period int, rich, invalid, allowDisc, big bo
 		case 5:
 			ps := &PktSpec{PID: uint16(0x1f00 + r.Intn(0xf0)), CC: uint8(r.Intn(16)), PUSI: r.Chance(1, 4), Prio: r.Chance(1, 8), TSC: uint8(r.Pick(6, 1, 1, 1)), Tag: tag}
 			tag++
+			if invalid && r.Chance(1, 12) {
+				ps.Wide = []uint16{0x2000, 0x4000, 0x8000, 0xe000}[r.Intn(4)]
+			}
 			switch r.Pick(4, 3, 2, 2) {
 			case 0: // payload only
 				ps.HasPayload = true
@@ -426,6 +438,9 @@ func (muxHist) Generate(r *core.PRNG, tier string, idx int64) any {
 		n = r.Range(91, 200)
 	}
 	sc.Ops = GenMuxOps(r, n, sc.Period, r.Chance(1, 3), true, true, true)
+	if idx%5 == 2 {
+		sc.WFault, sc.FailSeed, sc.Short = true, r.Uint64(), r.Range(0, 2)
+	}
 	return sc
 }
 
@@ -437,8 +452,11 @@ const churnEvery = 1201
 func genChurn(r *core.PRNG) *MuxHistScenario {
 	sc := &MuxHistScenario{Period: r.Range(1, 5)}
 	x := uint16(r.Range(0x20, 0x1ffe))
-	if r.Bool() {
+	switch r.Intn(4) {
+	case 0:
 		x = uint16(r.Range(0x100, 0x110))
+	case 1:
+		x = []uint16{0x1ffe, 0x1ffe, 0x1ffd, 0x20}[r.Intn(4)] // the ends of the PID space are in use when the allocator gets there
 	}
 	if x == 0x1000 {
 		x = 0x1001
@@ -469,6 +487,9 @@ func (muxHist) Execute(scAny any, keepLog bool) *core.Outcome {
 	}
 	s := NewMuxSim(sc.Period, world.WriterPlan{}, out, true)
 	s.Run(sc.Ops)
+	if sc.WFault && len(s.W.Calls) > 0 {
+		versionsAcrossFault(sc, out, len(s.W.Calls))
+	}
 	// coverage bookkeeping
 	grams := map[string]bool{}
 	prev := "^"
@@ -513,6 +534,62 @@ func (muxHist) Execute(scAny any, keepLog bool) *core.Outcome {
 	return out
 }
 
+// versionsAcrossFault: with a writer that fails once, every two consecutive PMTs that reached the
+// writer through successful calls must carry different version numbers if their contents
+// differ (a receiver ignores a PMT whose version it has already seen).
+func versionsAcrossFault(sc *MuxHistScenario, out *core.Outcome, total int) {
+	j := int(sc.FailSeed % uint64(total))
+	o := core.NewOutcome()
+	o.Log = out.Log
+	out.Log.Add("fault", "writer-once", j, sc.Short)
+	ms := NewMuxSim(sc.Period, world.WriterPlan{HasFault: true, FailCall: j, Short: sc.Short}, o, false)
+	ms.Faulty = true
+	prevVer, prevContent, prevCall := -1, "", -1
+	lost := false
+	for i := range sc.Ops {
+		before := ms.W.Faults
+		rec := ms.Step(i, &sc.Ops[i])
+		if ms.W.Faults != before {
+			lost = true
+			out.Probe("writer-fault-once")
+			continue
+		}
+		if rec.Err != nil || rec.Skipped {
+			continue
+		}
+		b := ms.W.Buf[rec.Off0:rec.Off1]
+		if len(b) == 0 || len(b)%188 != 0 {
+			continue
+		}
+		pk, _ := refts.SplitPackets(b)
+		for _, raw := range pk {
+			p := refts.DecodeLenient(raw)
+			if p == nil || raw[0] != 0x47 || !p.HasPayload() || !p.PUSI || ms.avoidPID < 0 || int(p.PID) != ms.avoidPID {
+				continue
+			}
+			secs, err := refts.Frame(p.Payload)
+			if err != nil || len(secs) != 1 || !secs[0].Complete || !secs[0].CRCOK {
+				continue // C09's business
+			}
+			sb := p.Payload[secs[0].Start:secs[0].End]
+			ps, err := refts.ParseLong(sb)
+			if err != nil || len(sb) < 12 {
+				continue
+			}
+			content := fmt.Sprintf("%x %02x %x", sb[:5], sb[5]&0xc1, sb[6:len(sb)-4])
+			if prevVer >= 0 && content != prevContent && int(ps.Version) == prevVer {
+				if lost {
+					out.Violate("C17", "version-rule", "after-writer-fault", "a Write call (%d) failed once; the PMT written by call %d differs in content from the previous one (call %d) but carries the same version_number %d", j, i, prevCall, prevVer)
+				}
+			}
+			if lost && prevVer >= 0 {
+				out.Probe("pmt-compared-across-writer-fault")
+			}
+			prevVer, prevContent, prevCall = int(ps.Version), content, i
+		}
+	}
+}
+
 func sortedKeys(m map[string]bool) []string {
 	var ks []string
 	for k := range m {
@@ -535,10 +612,18 @@ func (muxHist) Shrink(scAny any) []any {
 	sc := scAny.(*MuxHistScenario)
 	var out []any
 	for _, ops := range shrinkOps(sc.Ops) {
-		out = append(out, &MuxHistScenario{Period: sc.Period, Ops: ops})
+		out = append(out, &MuxHistScenario{Period: sc.Period, Ops: ops, WFault: sc.WFault, FailSeed: sc.FailSeed, Short: sc.Short})
 	}
 	if sc.Period > 1 {
-		out = append(out, &MuxHistScenario{Period: 1, Ops: sc.Ops}, &MuxHistScenario{Period: sc.Period - 1, Ops: sc.Ops})
+		out = append(out, &MuxHistScenario{Period: 1, Ops: sc.Ops, WFault: sc.WFault, FailSeed: sc.FailSeed, Short: sc.Short}, &MuxHistScenario{Period: sc.Period - 1, Ops: sc.Ops, WFault: sc.WFault, FailSeed: sc.FailSeed, Short: sc.Short})
+	}
+	if sc.WFault {
+		// the failing Write is FailSeed modulo the number of Write calls: try its neighbours
+		for _, d := range []uint64{1, 2, 4, 8, 16} {
+			if sc.FailSeed >= d {
+				out = append(out, &MuxHistScenario{Period: sc.Period, Ops: sc.Ops, WFault: true, FailSeed: sc.FailSeed - d, Short: sc.Short})
+			}
+		}
 	}
 	return out
 }
